@@ -10,6 +10,7 @@ import (
 	"net"
 	"path/filepath"
 	"sync"
+	"syscall"
 
 	"github.com/coredhcp/coredhcp/handler"
 	rangeplugin "github.com/coredhcp/coredhcp/plugins/range"
@@ -30,6 +31,7 @@ type Case struct {
 	Chain string `json:"chain"`
 	Dgram string `json:"datagram_hex"`
 	Note  string `json:"note,omitempty"`
+	Fault string `json:"environment_fault,omitempty"` // "" | "send" | "raw-socket-eperm" | "raw-socket-eacces"
 }
 
 var (
@@ -75,8 +77,24 @@ func boundIf() net.Interface {
 var bif = boundIf()
 
 // eval runs one datagram through the real entry point and applies the reference.
+var fault string
+
+// setFault puts the named environment fault in force for the following evals.
+func setFault(f string) {
+	fault = f
+	srv.Fault.SendErr, srv.Fault.FrameErr = nil, nil
+	switch f {
+	case "send":
+		srv.Fault.SendErr = fmt.Errorf("sendmsg: %w", syscall.ENETUNREACH)
+	case "raw-socket-eperm":
+		srv.Fault.FrameErr = fmt.Errorf("Send Ethernet: Cannot open socket: %w", syscall.EPERM)
+	case "raw-socket-eacces":
+		srv.Fault.FrameErr = fmt.Errorf("Send Ethernet: Cannot open socket: %w", syscall.EACCES)
+	}
+}
+
 func eval(r *ev.Run, chain string, dgram []byte, note string) {
-	c := Case{chain, hex.EncodeToString(dgram), note}
+	c := Case{chain, hex.EncodeToString(dgram), note, fault}
 	out := srv.Run4(bif, chains[chain], dgram, 0, &net.UDPAddr{IP: net.IPv4(10, 9, 9, 9), Port: 68})
 	if out.Panic != "" {
 		// crashes are C01's clause; here they only make the case unusable
@@ -213,7 +231,7 @@ var (
 
 func run(r *ev.Run) {
 	setupChains()
-	r.Rule("E3 complete products through the real HandleMsg4: (A) opcode 0..255 x message type {absent,0..255} with a rich header; (B) op=1,type in {DISCOVER,REQUEST} x xid{0,ffffffff,01020304} x htype{1,6,255} x hlen{0,6,16,17,255} x flags{0,8000,7fff,ffff} x giaddr{0,set} x ciaddr{0,set} x opt82 x opt61 x chain{empty,range,server_id+range,NAK plugin,nil plugin}; (B2) option 82 of {absent,1,2,100,190,200,255} octets x option 61 of {absent,2,80,255} x option 57 {absent,300,576,1500} x giaddr x type x chain; (C) every truncation of 3 seeds. Oracle on raw bytes with an independent parser. Class = chain/opcode class/type class/#replies/reply type.")
+	r.Rule("E3 complete products through the real HandleMsg4: (A) opcode 0..255 x message type {absent,0..255} with a rich header; (B) op=1,type in {DISCOVER,REQUEST} x xid{0,ffffffff,01020304} x htype{1,6,255} x hlen{0,6,16,17,255} x flags{0,8000,7fff,ffff} x giaddr{0,set} x ciaddr{0,set} x opt82 x opt61 x chain{empty,range,server_id+range,NAK plugin,nil plugin}; (B2) option 82 of {absent,1,2,100,190,200,255} octets x option 61 of {absent,2,80,255} x option 57 {absent,300,576,1500} x giaddr x type x chain; (B3) the same requests with every send failing / the raw socket refused (EPERM, EACCES): what is handed to the socket still matches; (C) every truncation of 3 seeds. Oracle on raw bytes with an independent parser. Class = chain/opcode class/type class/#replies/reply type.")
 	r.Assume("listener bound to " + bif.Name + "; reply captured at WriteTo or as the L2 frame before the AF_PACKET socket; malformed message-type options (length != 1) and a missing END option are not asserted")
 	// (A)
 	for op := 0; op < 256; op++ {
@@ -300,6 +318,41 @@ func run(r *ev.Run) {
 			}
 		}
 	}
+	// (B3) environment faults: whatever is handed to the socket while sends fail or the raw
+	// socket is refused must still match its request (a fallback path is a reply too)
+	for _, f := range []string{"send", "raw-socket-eperm", "raw-socket-eacces"} {
+		setFault(f)
+		for _, chain := range chainNames {
+			for _, mt := range []byte{1, 3} {
+				for _, fl := range []uint16{0, 0x8000} {
+					for gi := 0; gi < 2; gi++ {
+						for ci := 0; ci < 2; ci++ {
+							for o := 0; o < 4; o++ {
+								p := richHeader()
+								p.Flags = fl
+								p.GI, p.CI = [4]byte{}, [4]byte{}
+								if gi == 1 {
+									p.GI = [4]byte{10, 0, 0, 1}
+								}
+								if ci == 1 {
+									p.CI = [4]byte{10, 0, 0, 77}
+								}
+								p.Opts = []pkt.Opt4{{Code: 53, Data: []byte{mt}}}
+								if o&1 != 0 {
+									p.Opts = append(p.Opts, opt82)
+								}
+								if o&2 != 0 {
+									p.Opts = append(p.Opts, opt61)
+								}
+								eval(r, chain, p.Bytes(), "environment fault: "+f)
+							}
+						}
+					}
+				}
+			}
+		}
+	}
+	setFault("")
 	schedPart(r)
 	// (C) truncations
 	seeds := []pkt.V4{richHeader(), richHeader(), richHeader()}
@@ -334,5 +387,7 @@ func replay(r *ev.Run, raw json.RawMessage) {
 		return
 	}
 	b, _ := hex.DecodeString(c.Dgram)
+	setFault(c.Fault)
 	eval(r, c.Chain, b, c.Note)
+	setFault("")
 }
